@@ -30,7 +30,7 @@ theorem walks_spec (g : Graph N) (d : N → Bool) (f0 : N → List R → Except 
     themselves or by injection at the k-th invocation --, every later sequence of calls on the same walker returns
     exactly what it returns when the failing call is never made. -/
 theorem probe_after_failure_eq (g : Graph N) (d : N → Bool) (f0 : N → List R → Except E R)
-    (fbad : Nat → N → List R → Except E R) (hbad : Refines fbad f0) (inval shortcut : Bool)
+    (fbad : List N → N → List R → Except E R) (hbad : Refines fbad f0) (inval shortcut : Bool)
     (fuelBad fuel : Nat) (b : N) (V : List N) (hfuel : 2 * cost g V + 2 ≤ fuel) (qs : List N)
     (hV : ∀ q ∈ qs, Covers g d q V) (s : WState M N) (hi : Idle g d f0 s) :
     (walks g d (fun _ => f0) inval shortcut fuel qs (walk g d fbad inval shortcut fuelBad b s).2).1
@@ -274,10 +274,18 @@ theorem cb_refines (failAt : Option Nat) (failNodes : List Nat) :
     Refines (cb failAt failNodes) (fun n args => .ok (hcb n args)) := by
   intro k n args r h
   unfold cb at h
-  split at h
-  · cases h
-  · split at h
+  cases failAt with
+  | none =>
+    simp only [] at h
+    split at h
     · cases h
     · exact h
+  | some j =>
+    simp only [] at h
+    split at h
+    · cases h
+    · split at h
+      · cases h
+      · exact h
 
 end PySMT.WalkerDriver
